@@ -68,6 +68,11 @@ func (v *val) write(b *strings.Builder) {
 		}
 		b.WriteByte(']')
 	case 's':
+		if strings.HasPrefix(v.s, "LogValue panicked") {
+			// slog.Value.Resolve turns a panic inside LogValue into an error value whose text carries a stack
+			quote(b, "LogValue panicked")
+			return
+		}
 		quote(b, v.s)
 	case 'z':
 		b.WriteString("null")
@@ -189,6 +194,11 @@ type spec struct {
 
 type valuer struct{ v slog.Value }
 
+// panicValuer's LogValue panics: slog defines the resolved value (an error value saying so).
+type panicValuer struct{}
+
+func (panicValuer) LogValue() slog.Value { panic("log valuer exploded") }
+
 func (l valuer) LogValue() slog.Value { return l.v }
 
 func (s *spec) value() slog.Value {
@@ -285,6 +295,8 @@ func buildAlphabet() *alphabet {
 	add(leaf(`Any("nil",nil)`, "nil", func() slog.Value { return slog.AnyValue(nil) }, &val{k: 'z'}))
 	add(group("N", intLeaf("a", 1), group("M", intLeaf("b", 2), group("", intLeaf("c", 3)))))
 	add(lv("lvs", intLeaf("", 9)))
+	add(leaf(`Any("lvp",LogValuer that panics)`, "lvp", func() slog.Value { return slog.AnyValue(panicValuer{}) }, str("LogValue panicked")))
+	add(group("GP", leaf(`Any("in",LogValuer that panics)`, "in", func() slog.Value { return slog.AnyValue(panicValuer{}) }, str("LogValue panicked"))))
 	add(lv("lvl", lv("", intLeaf("", 8))))
 	add(lv("", group("", intLeaf("r", 1))))
 	add(group("H", lv("he", group("")), intLeaf("k", 1)))
